@@ -2186,10 +2186,14 @@ def c10_history_search(meta, seed, budget):
 # C11: generated socket tables on a fake procfs
 # ---------------------------------------------------------------------------
 
-def hex_addr(fam, ip, port):
+def hex_addr(fam, ip, port, big=False):
+    """the kernel prints each 32-bit word of the (network-order) address as a host-order integer: byte-swapped per word on
+    a little-endian host, as it is on a big-endian one"""
     import socket
     packed = socket.inet_pton(fam, ip)
-    if fam == socket.AF_INET:
+    if big:
+        h = packed.hex().upper()
+    elif fam == socket.AF_INET:
         h = packed[::-1].hex().upper()
     else:
         h = b"".join(packed[i:i + 4][::-1] for i in range(0, 16, 4)).hex().upper()
@@ -2215,6 +2219,7 @@ def c11_sockets(model, meta):
     from psutil import _pslinux
     socks = model["sockets"]      # dicts: proto, ver, laddr, lport, raddr, rport, st, inode, holders [(pid, fd)], path, utype
     kind = model.get("kind", "all")
+    big = bool(model.get("big_endian"))       # the same table as a big-endian host's kernel prints it
     d = tempfile.mkdtemp(prefix="vfproc_")
     problems = []
     old = psutil.PROCFS_PATH
@@ -2235,7 +2240,7 @@ def c11_sockets(model, meta):
                 fam = socket.AF_INET if s["ver"] == 4 else socket.AF_INET6
                 fn = s["proto"] + ("6" if s["ver"] == 6 else "")
                 st = s["st"] if s["proto"] == "tcp" else "07"
-                files[fn] += f"  {k}: {hex_addr(fam, s['laddr'], s['lport'])} {hex_addr(fam, s['raddr'], s['rport'])} {st} 00000000:00000000 00:00000000 00000000  1000        0 {s['inode']} 1 0000000000000000 100 0 0 10 0\n"
+                files[fn] += f"  {k}: {hex_addr(fam, s['laddr'], s['lport'], big)} {hex_addr(fam, s['raddr'], s['rport'], big)} {st} 00000000:00000000 00:00000000 00000000  1000        0 {s['inode']} 1 0000000000000000 100 0 0 10 0\n"
                 typ = socket.SOCK_STREAM if s["proto"] == "tcp" else socket.SOCK_DGRAM
                 la = (s["laddr"] if False else socket.inet_ntop(fam, socket.inet_pton(fam, s["laddr"])), s["lport"]) if s["lport"] else ()
                 ra = (socket.inet_ntop(fam, socket.inet_pton(fam, s["raddr"])), s["rport"]) if s["rport"] else ()
@@ -2265,9 +2270,34 @@ def c11_sockets(model, meta):
             if vp not in pids:
                 os.makedirs(f"{d}/{vp}")
                 open(f"{d}/{vp}/stat", "wb").write(_stat_with_start(vp, 50 + vp))
+        # descriptors of LIVE holders that close between the directory listing and their readlink() (ENOENT or ESRCH for
+        # that one entry): every other descriptor of the process, earlier or later in the listing, is still attributed
+        closing = {}
+        for pid, fd, how in model.get("closing", []):
+            if pid in pids and not os.path.lexists(f"{d}/{pid}/fd/{fd}"):
+                os.symlink("socket:[999999]", f"{d}/{pid}/fd/{fd}")
+                closing[f"{d}/{pid}/fd/{fd}"] = how
+        real_readlink, real_listdir = os.readlink, os.listdir
+
+        def f_readlink(path, *a, **k):
+            how = closing.get(os.fsdecode(path))
+            if how == "ENOENT":
+                raise FileNotFoundError(2, "No such file or directory", path)
+            if how == "ESRCH":
+                raise ProcessLookupError(3, "No such process", path)
+            return real_readlink(path, *a, **k)
+
+        def f_listdir(path=".", *a, **k):
+            names = real_listdir(path, *a, **k)
+            if os.fsdecode(path).endswith("/fd"):
+                names = sorted(names, key=lambda x: (not x.isdigit(), int(x) if x.isdigit() else 0))
+            return names
         psutil.PROCFS_PATH = d
         try:
-            got = psutil.net_connections(kind)
+            with mock.patch.object(os, "readlink", f_readlink), mock.patch.object(os, "listdir", f_listdir), \
+                    mock.patch.object(_pslinux, "LITTLE_ENDIAN", not big):
+                got = psutil.net_connections(kind)
+                pgs = {pid: psutil.Process(pid).net_connections(kind) for pid in sorted(pids - {1})[:2]}
             gotset = {(c.fd, int(c.family), int(c.type), tuple(c.laddr) if c.laddr != () and not isinstance(c.laddr, str) else c.laddr,
                        tuple(c.raddr) if c.raddr != () and not isinstance(c.raddr, str) else c.raddr,
                        str(c.status), c.pid) for c in got}
@@ -2277,7 +2307,7 @@ def c11_sockets(model, meta):
                 problems.append(f"net_connections({kind!r}): unexpected {sorted(gotset - want, key=str)[:2]} missing {sorted(want - gotset, key=str)[:2]}")
             # per-process form: only that process's sockets
             for pid in sorted(pids - {1})[:2]:
-                pg = psutil.Process(pid).net_connections(kind)
+                pg = pgs[pid]
                 pset = {(c.fd, int(c.family), int(c.type), tuple(c.laddr) if not isinstance(c.laddr, str) else c.laddr,
                          tuple(c.raddr) if not isinstance(c.raddr, str) else c.raddr, str(c.status)) for c in pg}
                 pw = {w[:6] for w in want if w[6] == pid}
@@ -2320,6 +2350,7 @@ def c11_sockets_search(meta, seed, budget):
         yield c
         # the same table with processes vanishing during the fd scan, before / between / after the holders
         yield dict(c, vanished=[2, 150, 250, 99999])
+        yield dict(c, closing=[[200, 1, "ENOENT"], [300, 2, "ESRCH"], [200, 7, "ESRCH"], [200, 50, "ENOENT"]])
     for n in range(budget):
         socks = []
         inode = 1000
@@ -2340,7 +2371,10 @@ def c11_sockets_search(meta, seed, budget):
                               "raddr": rng.choice(pool), "rport": rng.choice([0, 0, 443, rng.randrange(1, 65536)]),
                               "st": rng.choice(list(TCP_STATES)), "inode": inode, "holders": holders})
         yield {"sockets": socks, "kind": kinds[n % len(kinds)],
-               "vanished": rng.sample([2, 3, 101, 150, 199, 250, 301, 4000], rng.randrange(0, 4))}
+               "vanished": rng.sample([2, 3, 101, 150, 199, 250, 301, 4000], rng.randrange(0, 4)),
+               "closing": [[rng.choice([200, 300]), rng.choice([1, 2, 21, 40]), rng.choice(["ENOENT", "ESRCH"])]
+                           for _ in range(rng.choice([0, 0, 1, 2]))],
+               "big_endian": n % 5 == 4}
 
 
 # ---------------------------------------------------------------------------
@@ -2996,3 +3030,80 @@ def c04_linux_pid_exists_search(meta, seed, budget):
             for tgid in (4242, 4000):
                 for listed in ([1, 4242], [1, 4000], []):
                     yield {"pid": 4242, "posix_exists": posix, "readable": readable, "tgid": tgid, "listed": listed}
+
+
+# ---------------------------------------------------------------------------
+# C07: system-wide front ends, per-thread samples
+# ---------------------------------------------------------------------------
+
+def _c07_sample(model, cls, tag, salt):
+    vals = []
+    for i, f in enumerate(cls._fields):
+        v = model.get(f"{tag}_{f}")
+        vals.append(float(num(v)) if v is not None else float(salt * 10 + i + 1))
+    return cls(*vals)
+
+
+@runner("c07:front")
+def c07_front(model, meta):
+    """the real cpu_percent() / cpu_times_percent() with this thread's previous sample in the dict, next to other threads'
+    samples and an arbitrary number of live threads; oracle: the same call with nothing but this thread's sample around
+    (what other threads left behind, and how many there are, must not change the answer), plus the frame"""
+    import threading
+    import psutil
+    cfg = cfg_of(meta)
+    n, percpu = int(cfg["n"]), str(cfg["percpu"]) == "True"
+    has_prev, others, mode = str(cfg["has_prev"]) == "True", str(cfg["others"]) == "True", cfg["mode"]
+    if mode == "neg":
+        return {"env": {}, "result": None, "exc": None, "verdict": False}
+    fname = "cpu_times_percent" if "cpu_times_percent" in meta.get("contract", "") else "cpu_percent"
+    names = ("_last_cpu_times_2", "_last_per_cpu_times_2") if fname == "cpu_times_percent" else \
+        ("_last_cpu_times", "_last_per_cpu_times")
+    mine = names[1] if percpu else names[0]
+    cls = collections.namedtuple("scputimes", SCPU_FIELDS[:n])
+
+    def smp(tag, salt):
+        if percpu:
+            return [_c07_sample(model, cls, f"{tag}{c}", salt + c) for c in range(2)]
+        return _c07_sample(model, cls, tag, salt)
+
+    prev, a, b = smp("prev", 1), smp("sa", 20), smp("sb", 40)
+    tid = threading.current_thread().ident
+    oth = {tid + 1 + k: smp(f"o{t}", 60 + 10 * k) for k, t in enumerate((222, 333))} if others else {}
+    nthreads = int(num(model.get("nthreads", 1)) or 1)
+    interval = {"none": None, "zero": 0.0, "block": 0.01}[mode]
+
+    def run(cache, count):
+        seq = iter([a, b, b, b])
+        with mock.patch.object(psutil._psplatform, "scputimes", cls), \
+                mock.patch.object(psutil, "cpu_times", lambda percpu=False: next(seq)), \
+                mock.patch.object(psutil, mine, cache), \
+                mock.patch.object(threading, "active_count", lambda: count), \
+                mock.patch.object(psutil.time, "sleep", lambda s: None):
+            return getattr(psutil, fname)(interval=interval, percpu=percpu)
+
+    problems = []
+    try:
+        cache = dict(oth)
+        if has_prev:
+            cache[tid] = prev
+        got = run(cache, nthreads)
+        want = run({tid: prev} if has_prev else {}, 1)
+        if got != want:
+            problems.append(f"{fname}() == {got!r} with other threads' samples around / {nthreads} live threads, {want!r} alone")
+        newest = a if (has_prev and mode != "block") else b
+        if cache.get(tid) != newest:
+            problems.append("the calling thread's newest sample was not left behind")
+        if {k: v for k, v in cache.items() if k != tid} != oth:
+            problems.append("another thread's sample was touched")
+        exc = None
+    except Exception as e:  # noqa: BLE001
+        exc = e
+        problems.append(f"raised {e!r}")
+    return {"env": {}, "result": problems[:3], "exc": None, "verdict": bool(problems)}
+
+
+@search("c07:front")
+def c07_front_search(meta, seed, budget):
+    for nthreads in (1, 2, 3, 5, 50):
+        yield {"nthreads": nthreads}
